@@ -97,7 +97,12 @@ def r1(ctx: Ctx):
     ctx.ok(rule, fi, 'in_place is never reassigned', fi.node)
   rets = [x for x in walk_no_nested(fi.node) if isinstance(x, ast.Return)]
   last = rets[-1] if rets else None
-  if last is not None and unparse(last.value) == 'result':
+  # the working copy = the local that receives copy.copy(tree) / list(tree)
+  work = {x.targets[0].id for x in walk_no_nested(fi.node) if isinstance(x, ast.Assign)
+          and isinstance(x.targets[0], ast.Name)
+          and any(isinstance(c, ast.Call) and unparse(c.func) in ('copy.copy', 'list') and c.args
+                  and unparse(c.args[0]) == 'tree' for c in ast.walk(x.value))}
+  if last is not None and isinstance(last.value, ast.Name) and last.value.id in work:
     ctx.ok(rule, fi, 'returns the working copy', last)
   else:
     ctx.fail(rule, fi, '_set_by_path: return result', 'the updated copy is not returned',
@@ -124,9 +129,14 @@ def r2(ctx: Ctx):
              'set() calls _set_by_path without forwarding its in_place flag: a'
              ' copying set modifies the original for this key shape')
   rets = [x for x in walk_no_nested(st.node) if isinstance(x, ast.Return)]
-  ok = rets and all(isinstance(r.value, ast.IfExp) and unparse(r.value.test) == 'in_place'
-                    and unparse(r.value.body) == 'self'
-                    and 'replace(self, data=data)' in unparse(r.value.orelse) for r in rets)
+  from mlmverif import pat
+  # the local that accumulates the _set_by_path results
+  datav = {x.targets[0].id for x in walk_no_nested(st.node) if isinstance(x, ast.Assign)
+           and isinstance(x.targets[0], ast.Name) and isinstance(x.value, ast.Call)
+           and unparse(x.value.func) == 'self._set_by_path'}
+  ok = rets and len(datav) == 1 and all(
+      pat.match('self if in_place else dataclasses.replace(self, data=$d)', r.value,
+                ) is not None and r.value.orelse.keywords[0].value.id in datav for r in rets)
   if ok:
     ctx.ok(rule, st, 'set returns self (in place) or a new view with the new data', rets[0])
   else:
@@ -163,6 +173,15 @@ def r2(ctx: Ctx):
     ctx.fail(rule, ap, 'apply: TreeMapView(copy.copy(self.data)).copy_and_update(self.items())',
              'apply() does not work on a copy of the viewed data', node=ap.node)
   ctx.floor(rule, 6)
+
+
+def pat_has_tuple_read(case, keys_param: str) -> bool:
+  from mlmverif import pat
+  for s in case.body:
+    if isinstance(s, ast.Return) and pat.match(
+        f'tuple(self.__get($k) for $k in {keys_param})', s.value) is not None:
+      return True
+  return False
 
 
 def _pat(p) -> str:
@@ -207,18 +226,19 @@ def r3(ctx: Ctx):
   gi = repo.func(T, 'TreeMapView.__getitem__')
   m = [s for s in gi.node.body if isinstance(s, ast.Match)][0]
   arm = [c for c in m.cases if _pat(c.pattern) == '(_, *_)']
-  ok = arm and 'tuple(' in unparse(arm[0].body[0]) and 'for key in keys' in unparse(arm[0].body[0])
+  ok = bool(arm) and pat_has_tuple_read(arm[0], gi.params()[1])
   if ok:
     ctx.ok(rule, gi, 'multi-key read: tuple(get(key) for key in keys)', arm[0])
   else:
     ctx.fail(rule, gi, '__getitem__: tuple(self.__get(key) for key in keys)',
              'multi-key reads are not aligned with the keys', node=gi.node)
   df = repo.func(T, '_dfs_iter_tree')
-  txt = unparse(df.node)
-  ok = ('parent_key_path.at(k)' in txt and 'parent_key_path.at(Index(i))' in txt
-        and 'yield Key(parent_key_path)' in txt)
-  rec = [c for c in walk_no_nested(df.node) if isinstance(c, ast.Call) and unparse(c.func) == '_dfs_iter_tree']
-  ok = ok and len(rec) == 2 and all(unparse(c.args[0]) == 'v' for c in rec)
+  from mlmverif import pat
+  dp = df.params()
+  a = pat.search(df.node, f'for $k, $v in {dp[0]}.items():\n  yield from _dfs_iter_tree($v, {dp[1]}.at($k))')
+  b_ = pat.search(df.node, f'for $i, $v in enumerate({dp[0]}):\n  yield from _dfs_iter_tree($v, {dp[1]}.at(Index($i)))')
+  leaf = pat.has(df.node, f'yield Key({dp[1]})')
+  ok = bool(a) and bool(b_) and leaf
   if ok:
     ctx.ok(rule, df, '_dfs_iter_tree recurses per child with the extended path', df.node)
   else:
